@@ -136,6 +136,7 @@ def items(tier, seed):
             out.append(dict(name=f"real-list-I{I}-f{f}", part="real", I=I, L=2 if quick else 3, S=6, first=f, mode="list", seed=seed))
     for I in [1, 2, 3]:
         out.append(dict(name=f"real-std-I{I}", part="realstd", I=I, N=6 if quick else 9, seed=seed))
+    out.append(dict(name="real-same-directory", part="samedir", seed=seed))
     return out
 
 
@@ -840,7 +841,53 @@ def work_realstd(item, col):
     col.sample(dict(part="realstd", interval=I, epochs=item["N"]))
 
 
+def work_samedir(item, col):
+    """Two checkpointer instances writing into the same directory (a script run twice, a resumed run), with and
+    without define_experiment(): whatever the second instance lists must restore to the model IT recorded; refusing
+    loudly (orbax: destination exists) is acceptable, listing a path that holds another model is not."""
+    model = tiny_model()
+    for define, steps, I in itertools.product((False, True), ([1], [2, 4], [3, 3, 6]), (1, 2)):
+        d = fresh_dir()
+        listed = []
+        for run in (1, 2):
+            ck = OrbaxCheckpointer(checkpoint_dir=d, verbose=0)
+            if define:
+                ck.define_experiment("E", "A")
+            ck.define_checkpoint_frequency("m", I)
+            tags = {}
+            raised = None
+            for j, st in enumerate(steps):
+                tag = 100.0 * run + j + 0.5
+                set_tag(model, tag)
+                n0 = len(ck.checkpoint_path["m"])
+                try:
+                    ck.record_epoch("m", model, step=st)
+                except Exception as ex:  # noqa: BLE001
+                    raised = repr(ex)[:200]
+                    break
+                for pth in ck.checkpoint_path["m"][n0:]:
+                    tags[pth] = tag
+            col.tick(1, ("samedir", define, tuple(steps), I, run))
+            if raised is not None:
+                col.outcome("second_checkpointer_on_the_same_directory_refused_loudly" if run == 2 else "first_checkpointer_raised")
+                continue
+            for pth, tag in tags.items():
+                ctx = dict(define_experiment=define, steps=steps, interval=I, instance=run, path=pth)
+                col.tick(1)
+                try:
+                    got = leaves_of(_MODEL["reader"].restore(pth, _MODEL["abstract"]))
+                except Exception as ex:  # noqa: BLE001
+                    col.violation(SIG.format("OrbaxCheckpointer.record_epoch", K_RESTORE), dict(ctx, why=repr(ex)[:300]))
+                    continue
+                if not all(np.all(x == np.asarray(tag, dtype=x.dtype)) for x in got):
+                    col.violation(SIG.format("OrbaxCheckpointer.record_epoch", K_STATE), dict(ctx, expected_tag=tag, got=[float(np.ravel(x)[0]) for x in got][:4]))
+                else:
+                    col.outcome("listed_paths_restored_to_the_recorded_model")
+    col.sample(dict(part="samedir"))
+
+
 _PARTS = {
+    "samedir": work_samedir,
     "rec": work_rec,
     "cadx": work_cadx,
     "cadi": work_cadi,
